@@ -2,6 +2,7 @@ import TD.Common.Proto
 import TD.C01.Model
 import TD.C01.Spec
 import TD.C01.Wire
+import TD.C01.ObjModel
 open TD TD.C01 TD.Proto
 
 /-!
@@ -12,10 +13,42 @@ Line protocol of the C01 driver.
     recs = `-` or `rec;rec;…`, rec = `E|I,type,payloadHex,seg/seg/…`,
     seg  = `n:pad:fill:chk:trl:enc:pkt:vr` (chk = `N` or 4 hex digits, trl/enc/pkt = 0|1, vr = `N` or the length)
 * `iter <hex>` → `<ok|err:Class> <recs>` with recs = `-` or `E|I,type,payloadHex;…`  (model of iter_logical_records)
+* `rdr <hex> <ops>` → `o1|o2|…`: a history on ONE reader object (model `runR`); ops separated by `;`:
+    `L*` / `L<k>` iter_logical_records complete / abandoned after k items → `<ok|err:Class> <recs>`,
+    `V*` / `V<k>` iter_visible_records → `<ok|err:Class> pos,len;…`,
+    `H<vrPos>,<vrLen>,<*|k>` iter_LRSHs_for_visible_record → `<ok|err:Class> pos,len,attr,type;…`,
+    `O` any other method (leaves the reader in a junk state) → `-`
 * `sul <hex>`  → `ok seq verHex structHex maxLen identHex` | `err`                     (model of StorageUnitLabel)
 -/
 
 namespace TD.C01.Drv
+
+def parseK (s : String) : Option (Option Nat) := if s = "*" then some none else s.toNat?.map some
+
+def parseROp (s : String) : Option ROp :=
+  if s = "O" then some (.other ⟨12345, ⟨999, 7⟩, ⟨3, 1, 255, 9⟩⟩)
+  else if s.startsWith "L" then (parseK (s.drop 1).toString).map .recs
+  else if s.startsWith "V" then (parseK (s.drop 1).toString).map .vrs
+  else if s.startsWith "H" then
+    match (s.drop 1).toString.splitOn "," with
+    | [a, b, k] => do
+      let a ← a.toNat?
+      let b ← b.toNat?
+      let k ← parseK k
+      pure (.lrshs a b k)
+    | _ => none
+  else none
+
+def stE (e : Option Err) : String :=
+  match e with
+  | none => "ok"
+  | some e => "err:" ++ errName e
+
+def showROut : ROut → String
+  | .recs l e => s!"{stE e} {showRecs l}"
+  | .vrs l e => s!"{stE e} " ++ (if l.isEmpty then "-" else ";".intercalate (l.map fun v => s!"{v.pos},{v.len}"))
+  | .lrshs l e => s!"{stE e} " ++ (if l.isEmpty then "-" else ";".intercalate (l.map fun h => s!"{h.pos},{h.len},{h.attr},{h.type}"))
+  | .none => "-"
 
 def step (line : String) : String :=
   match line.splitOn " " with
@@ -32,6 +65,11 @@ def step (line : String) : String :=
         | some e => "err:" ++ errName e
       s!"{stS} {showRecs rs}"
     | none => "bad-op"
+  | ["rdr", h, ops] =>
+    match unhex h, (ops.splitOn ";").mapM parseROp with
+    | some b, some os =>
+      "|".intercalate ((runR (fun _ st _ => { st with cur := st.cur + 17 }) b ⟨1, ⟨2, 3⟩, ⟨84, 5, 6, 7⟩⟩ os).map showROut)
+    | _, _ => "bad-op"
   | ["sul", h] =>
     match unhex h with
     | some b =>
